@@ -22,6 +22,7 @@ import (
 	"anndbverif/explore"
 	"anndbverif/lib/ev"
 	"anndbverif/vrt"
+	vctx "anndbverif/vrt/context"
 	"anndbverif/vrt/fakes"
 	"anndbverif/world"
 
@@ -173,6 +174,12 @@ func scenarioA(v variantA) *explore.Scenario {
 				})
 			}
 			return func(end vrt.EndReason) *explore.Violation {
+				for _, r := range results {
+					if !r.done {
+						letTimePass(x)
+						break
+					}
+				}
 				// the k-th proposal timer created by a caller thread belongs to its k-th call
 				fired := map[string]bool{}
 				perThread := map[string]int{}
@@ -248,6 +255,103 @@ func scenarioA(v variantA) *explore.Scenario {
 						}
 					}
 					return &explore.Violation{Key: key, Desc: fmt.Sprintf("outcomes %s, timers fired for %v, final contents %v: %s", describe(results), fired, final, why)}
+				}
+				return nil
+			}
+		},
+	}
+}
+
+type defaultPick struct{}
+
+func (defaultPick) Pick(s *vrt.Sched, alts []vrt.Alt, costs []int) int { return 0 }
+
+// letTimePass: before the verdict on a caller that has not returned, time passes - every armed timer that belongs to
+// a caller (its 5 s proposal timer, its own deadline) fires, whether or not anything is waiting for it, and the
+// system runs to quiescence. A write that ignores its timers stays blocked and is reported.
+func letTimePass(x *explore.Exec) {
+	if x.S.Panicked() != nil {
+		return
+	}
+	for round := 0; round < 4; round++ {
+		any := false
+		for _, t := range x.S.Timers() {
+			if t.Kind == "deadline" && strings.Contains(t.Creator, "caller") && t.Armed() {
+				x.S.Fire(t)
+				any = true
+			}
+		}
+		if !any {
+			return
+		}
+		if r := x.S.Run(defaultPick{}, nil); r != vrt.Quiescent {
+			return
+		}
+	}
+}
+
+// scenarioD: the partition's group has no leader (its other replica never answers). A write must come back with an
+// error once its time is up - the 5 s proposal timer or the caller's own deadline, both virtual and offered to the
+// explorer - and must never be acknowledged.
+func scenarioD(kind string, callerDeadline bool) *explore.Scenario {
+	return &explore.Scenario{
+		Name:      fmt.Sprintf("D-no-leader-%s-caller-deadline-%v", kind, callerDeadline),
+		Configure: func(s *vrt.Sched) { s.Horizon = 200000; s.DelayBounding = true },
+		Build: func(x *explore.Exec) func(vrt.EndReason) *explore.Violation {
+			fakes.Reset()
+			meta := world.DatasetMeta(1, pb.Space_Euclidean, [][]uint64{{1, 2}}, 2)
+			var node *world.RNode
+			x.S.Spawn("n1/setup", false, func() {
+				node = world.NewRNode(1, world.MemDB(), []uint64{1, 2}) // node 2 is never started: no quorum, no leader
+				if err := node.ApplyCreate(meta); err != nil {
+					panic(err)
+				}
+			})
+			x.Quiesce()
+			x.OnCleanup(func() { node.Close() })
+			for _, t := range x.S.Timers() {
+				t.Stop() // raft ticks stay quiet; only the write's own timers may fire
+			}
+			x.S.OfferTimers = true
+			ds := node.Dataset(meta)
+			var err error
+			done := false
+			x.S.Spawn("n1/caller0", true, func() {
+				ctx := context.Background()
+				if callerDeadline {
+					var cancel func()
+					ctx, cancel = vctx.WithTimeout(ctx, time.Second)
+					defer cancel()
+				}
+				switch kind {
+				case "ins":
+					err = ds.Insert(ctx, ids[0], []float32{1}, nil)
+				case "rem":
+					err = ds.Remove(ctx, ids[0])
+				}
+				done = true
+			})
+			return func(end vrt.EndReason) *explore.Violation {
+				if !done {
+					letTimePass(x)
+				}
+				fired := 0
+				pending := 0
+				for _, t := range x.S.Timers() {
+					if t.Kind == "deadline" && strings.Contains(t.Creator, "caller") {
+						if t.Fired > 0 {
+							fired++
+						} else if t.Armed() {
+							pending++
+						}
+					}
+				}
+				x.Outcome = fmt.Sprintf("done=%v err=%v fired=%d pending=%d", done, err != nil, fired, pending)
+				if done && err == nil {
+					return &explore.Violation{Key: "success-without-leader", Desc: "a write was acknowledged although the partition's group has no leader"}
+				}
+				if !done && pending == 0 {
+					return &explore.Violation{Key: "caller-never-returns", Desc: fmt.Sprintf("no leader: the write did not return although %d of its timers fired and none is pending: %s", fired, strings.Join(x.S.Blocked(), "; "))}
 				}
 				return nil
 			}
@@ -690,6 +794,11 @@ func main() {
 	for _, mode := range []string{"healthy", "unknown-address", "rpc-error", "down"} {
 		for _, kind := range []string{"ins", "upd", "rem"} {
 			scs = append(scs, scenarioB(variantB{mode + "-" + kind, mode, kind}))
+		}
+	}
+	for _, kind := range []string{"ins", "rem"} {
+		for _, dl := range []bool{false, true} {
+			scs = append(scs, scenarioD(kind, dl))
 		}
 	}
 	before := func(run *ev.Run) ev.Coverage {
